@@ -234,11 +234,17 @@ def check_case(ctx, case):
     rows = case['rows']
     ox, oy = case['ox'], case['oy']
     doc = [''] * oy + [' ' * ox + r for r in rows]
-    r = ctx.conv(gen.text_of(doc))
+    # a quarter of the cases at another scale; 5, 2.5, 13 and 1 keep every coordinate a dyadic rational that f32
+    # and its decimal print hold exactly, so the exact comparisons below still apply after dividing by scale/8
+    hk = key_of(doc)
+    scale = [5.0, 2.5, 13.0, 1.0][hk[1] % 4] if hk[0] % 4 == 0 else 8.0
+    r = ctx.conv(gen.text_of(doc), scale=scale)
     if not r.ok:
         return 'conversion failed: ' + r.fail_text()
+    if scale != 8.0:
+        ctx.tag('cases_at_other_scales')
     try:
-        sc = Scene(r.out)
+        sc = Scene(r.out, sc=F(scale) / 8)
     except Malformed as e:
         return 'output not parseable: %s' % e
     k = case['kind']
@@ -256,7 +262,7 @@ def check_case(ctx, case):
     else:
         msg = check_outline(sc)
     if msg:
-        return '%s %r (%s, length %s) at offset (%d,%d): %s' % (k, case.get('glyph'), case.get('what'), case.get('n'), ox, oy, msg)
+        return '%s %r (%s, length %s) at offset (%d,%d)%s: %s' % (k, case.get('glyph'), case.get('what'), case.get('n'), ox, oy, '' if scale == 8.0 else ' at scale %s' % scale, msg)
     return None
 
 
